@@ -5,7 +5,7 @@ Template directives (each on its own line):
   //@props C14,C20                    unit-level default property list
   //@include prelude/std_string.rs    copy a file from /verif verbatim (trusted prelude / lemmas)
   //@take <relpath> <selector> [k=v..] extract an item (types, consts) with rewrites D1..D5 only
-  //@extract <relpath> <selector> [props=C04,C01] [stub]
+  //@extract <relpath> <selector> [props=C04,C01] [panics=C20] [stub]
       //@contract                     following raw lines go between signature and body
       //@loop K [iter=NAME]           following raw lines go before the '{' of the K-th loop
                                       (K counts `for`/`while`/`loop` keywords in textual order);
@@ -941,6 +941,8 @@ def assemble(unit_name, repo=None, extra_takes=(), auto_uncontinue=False):
             text, first = extract(repo, relpath, selector, log)
             fname = kv.get('as') or selector.replace('impl:', '').replace('fn:', '').replace('/', '::')
             f = Func(fname, relpath, selector, props, stub)
+            # properties (besides C14) whose statement itself promises a verdict instead of a panic for this function
+            f.panic_props = [p for p in kv.get('panics', '').split(',') if p]
             f.sha256 = hashlib.sha256(text.encode()).hexdigest()
             f.repo_first = first
             f.repo_last = first + text.count('\n')
